@@ -60,10 +60,16 @@ DataRefused ==
   /\ pc' = "idle" /\ srvList' = <<>>
   /\ UNCHANGED <<list, txn, nrc, reads, owed, cbs>>
 
+\* ... or the peer keeps the transaction (a failed command changes nothing,
+\* RFC 5321 4.1.1.4) and the application simply tries DATA again
+DataRefusedKept ==
+  /\ pc = "mail" /\ srvList # <<>>
+  /\ UNCHANGED vars
+
 Reset == /\ pc \in {"idle", "mail"} /\ pc' = "idle" /\ list' = <<>> /\ srvList' = <<>>
          /\ UNCHANGED <<txn, nrc, reads, owed, cbs>>
 
-Next == Mail \/ (\E r \in Rcpts, acc \in BOOLEAN : Rcpt(r, acc)) \/ DataAndClose \/ DataRefused \/ Reset
+Next == Mail \/ (\E r \in Rcpts, acc \in BOOLEAN : Rcpt(r, acc)) \/ DataAndClose \/ DataRefused \/ DataRefusedKept \/ Reset
         \/ (txn = MaxTxn /\ UNCHANGED vars)
 Spec == Init /\ [][Next]_vars
 
